@@ -30,7 +30,7 @@ func verifC15() {
 		mainImp[i] = verifBool(fmt.Sprintf("m_%d", i))
 	}
 	selfCycle := false
-	layout := verifChoice("layout", 7)
+	layout := verifChoice("layout", 9)
 	// import path prefix under which the packages live, and where the files really are
 	prefix, dirPrefix := "", ""
 	switch layout {
@@ -40,6 +40,12 @@ func verifC15() {
 		prefix, dirPrefix = "example.com/lib/", "lib/" // shortened path: example.com/lib/p0 found at lib/p0
 	case 3:
 		prefix, dirPrefix = "example.com/lib/", "vendor/example.com/lib/"
+	case 7:
+		// the full path exists AND a shorter suffix of it exists as another directory: the first candidate wins
+		prefix, dirPrefix = "a/", "a/"
+	case 8:
+		// vendor/<path> exists AND <path> exists: vendor/ is searched first
+		dirPrefix = "vendor/"
 	}
 	files := map[string]string{}
 	files["log/log.go"] = "package log\n\nimport \"fmt\"\n\nfunc Note(s string) int {\n\tfmt.Println(s)\n\treturn 0\n}\n"
@@ -114,6 +120,10 @@ func verifC15() {
 			files[dir+"header.go"] = "// Copyright header\n// second line\n\n//go:build !goat\n\npackage " + verifC15Name(i) + "\n\nimport \"log\"\n\nvar H = log.Note(\"HEADERSKIP " + verifC15Name(i) + "\")\n"
 			files[dir+"late.go"] = "package " + verifC15Name(i) + "\n\n//go:build ignore\n\nimport \"log\"\n\nvar L = log.Note(\"late " + verifC15Name(i) + "\")\n"
 			files[dir+"quoted.go"] = "package " + verifC15Name(i) + "\n\nimport \"log\"\n\n/*\n//go:build ignore\n*/\nvar Q = log.Note(\"quoted " + verifC15Name(i) + "\" + `\n//go:build ignore\n`[0:0])\n"
+		}
+		if layout == 7 || layout == 8 {
+			// the decoy directory at the later search position must never be loaded
+			files[verifC15Name(i)+"/decoy.go"] = "package " + verifC15Name(i) + "\n\nimport \"log\"\n\nvar V = log.Note(\"DECOY " + verifC15Name(i) + "\")\n"
 		}
 		if layout == 6 && i == 0 {
 			files[dir+"conflict.go"] = "package other\n"
@@ -235,6 +245,7 @@ func verifC15() {
 	}
 	verifAssert(!strings.Contains(out, "TESTFILE") && !strings.Contains(out, "EXCLUDED") && !strings.Contains(out, "NONGOAT"), "C15/ignored-files-not-run")
 	verifAssert(!strings.Contains(out, "HEADERSKIP"), "C15/constraint-after-a-header-comment-excludes-the-file")
+	verifAssert(!strings.Contains(out, "DECOY"), "C15/first-search-candidate-wins")
 }
 
 var verifC15Out, verifC15Err string
